@@ -346,8 +346,13 @@ def finishCase (s : SSt) (rline : String) : SSt := Id.run do
         s := { s with stats := { s.stats with mateInTwo := s.stats.mateInTwo + 1 } }
         if !specKeepsMate sn.pos wit then s := s.report "model" "C12" "mined-witness-not-a-forced-mate" s!"wit={c.wit}"
         else if !specKeepsMate sn.pos chosen then
-          -- not the shortest mate: does a forced mate remain at all (within three more moves)?
-          let keeps := match (legalMovesOf chessGame board).find? (fun m => m.notation == bm) with
+          -- not the shortest mate: does a forced mate remain at all?  "Keeps a forced mate" is about ANY length.  Two ways to
+          -- know: (a) the search reported a mate score for the root — then, by `C12.mate_score_sound_partial` (no root move
+          -- mates at once in an m2 case, the cache started empty or from earlier searches of this position, so it holds no
+          -- score beyond ±32766) the opponent is forcibly mated after the chosen move, however long it takes; the
+          -- implementation's score is the model's (compared below); (b) a bounded mate search over the model's game
+          let rootScore := ((kv "score").toInt?).getD 0
+          let keeps := rootScore ≥ 32767 - 255 || match (legalMovesOf chessGame board).find? (fun m => m.notation == bm) with
             | some m => lostWithin chessGame 2 (board.makeMove m)
             | none => false
           if keeps then s := { s with stats := { s.stats with longerMateKept := s.stats.longerMateKept + 1 } }
